@@ -27,10 +27,13 @@ import (
 // ---- argument tracking (purity: arguments must be unchanged after the call) ----
 
 type argTrack struct {
-	ints  []*big.Int
-	intS  []string
-	bytes [][]byte
-	byteS []string
+	ints   []*big.Int
+	intS   []string
+	bytes  [][]byte
+	byteS  []string
+	lists  [][]*big.Int // argument slices: their elements (pointers) must stay in place
+	listP  [][]*big.Int
+	checks []func() string // further post-call checks (struct fields, key arrays)
 }
 
 func (a *argTrack) Int(tok string) *big.Int {
@@ -68,17 +71,70 @@ func (a *argTrack) IntList(tok string) []*big.Int {
 		return []*big.Int{}
 	}
 	parts := strings.Split(inner, ",")
-	r := make([]*big.Int, len(parts))
+	r := make([]*big.Int, len(parts), len(parts)+4)
 	for i, p := range parts {
 		r[i] = a.Int(p)
 	}
+	a.lists = append(a.lists, r)
+	a.listP = append(a.listP, append([]*big.Int(nil), r...))
 	return r
+}
+
+// point / key / signature arguments: the struct's fields must still point to the same integers
+func (a *argTrack) Point(x, y string) *babyjub.Point {
+	p := &babyjub.Point{X: a.Int(x), Y: a.Int(y)}
+	px, py := p.X, p.Y
+	a.checks = append(a.checks, func() string {
+		if p.X != px || p.Y != py {
+			return " !ARGMUT(point field replaced)"
+		}
+		return ""
+	})
+	return p
+}
+
+func (a *argTrack) Key(tok string) *babyjub.PrivateKey {
+	b := a.Bytes(tok)
+	if len(b) != 32 {
+		panic("harness: key needs 32 bytes")
+	}
+	k := new(babyjub.PrivateKey)
+	copy(k[:], b)
+	k0 := *k
+	a.checks = append(a.checks, func() string {
+		if *k != k0 {
+			return " !ARGMUT(private key bytes)"
+		}
+		return ""
+	})
+	return k
 }
 
 func (a *argTrack) mutated() string {
 	for i, v := range a.ints {
 		if v.String() != a.intS[i] {
 			return fmt.Sprintf(" !ARGMUT(int#%d %s->%s)", i, a.intS[i], v.String())
+		}
+	}
+	for i, l := range a.lists {
+		if len(l) != len(a.listP[i]) {
+			return fmt.Sprintf(" !ARGMUT(list#%d length)", i)
+		}
+		for j := range l {
+			if l[j] != a.listP[i][j] {
+				return fmt.Sprintf(" !ARGMUT(list#%d element %d replaced)", i, j)
+			}
+		}
+		full := l[:cap(l)]
+		for _, x := range full[len(l):] {
+			if x != nil {
+				return fmt.Sprintf(" !ARGMUT(list#%d spare capacity written)", i)
+			}
+		}
+	}
+	for _, c := range a.checks {
+		if m := c(); m != "" {
+			return m
 		}
 	}
 	for i, b := range a.bytes {
@@ -438,8 +494,8 @@ func dispatch(op, pat string, args []string, a *argTrack) string {
 	// ---------------- babyjub ----------------
 	case "bj.add":
 		need(args, 4)
-		p := &babyjub.Point{X: a.Int(args[0]), Y: a.Int(args[1])}
-		q := &babyjub.Point{X: a.Int(args[2]), Y: a.Int(args[3])}
+		p := a.Point(args[0], args[1])
+		q := a.Point(args[2], args[3])
 		pp, qp := p.Projective(), q.Projective()
 		var r *babyjub.PointProjective
 		switch pat {
@@ -458,7 +514,7 @@ func dispatch(op, pat string, args []string, a *argTrack) string {
 	case "bj.mul":
 		need(args, 3)
 		s := a.Int(args[0])
-		p := &babyjub.Point{X: a.Int(args[1]), Y: a.Int(args[2])}
+		p := a.Point(args[1], args[2])
 		return showPt(babyjub.NewPoint().Mul(s, p))
 	case "bj.mulrecv":
 		need(args, 3)
@@ -516,15 +572,15 @@ func dispatch(op, pat string, args []string, a *argTrack) string {
 		return out
 	case "bj.incurve":
 		need(args, 2)
-		p := &babyjub.Point{X: a.Int(args[0]), Y: a.Int(args[1])}
+		p := a.Point(args[0], args[1])
 		return showBool(p.InCurve())
 	case "bj.insubgroup":
 		need(args, 2)
-		p := &babyjub.Point{X: a.Int(args[0]), Y: a.Int(args[1])}
+		p := a.Point(args[0], args[1])
 		return showBool(p.InSubGroup())
 	case "bj.compress":
 		need(args, 2)
-		p := &babyjub.Point{X: a.Int(args[0]), Y: a.Int(args[1])}
+		p := a.Point(args[0], args[1])
 		c := p.Compress()
 		return showBytes(c[:])
 	case "bj.decompress":
@@ -579,8 +635,8 @@ func dispatch(op, pat string, args []string, a *argTrack) string {
 	// ---------------- eddsa ----------------
 	case "ed.sk2big":
 		need(args, 1)
-		k := keyOf(a.Bytes(args[0]))
-		r1 := babyjub.SkToBigInt(&k)
+		k := a.Key(args[0])
+		r1 := babyjub.SkToBigInt(k)
 		r2 := k.Scalar().BigInt()
 		if r1.Cmp(r2) != 0 {
 			return r1.String() + "!routes-differ:" + r2.String()
@@ -588,17 +644,17 @@ func dispatch(op, pat string, args []string, a *argTrack) string {
 		return r1.String()
 	case "ed.public":
 		need(args, 1)
-		k := keyOf(a.Bytes(args[0]))
+		k := a.Key(args[0])
 		p1 := k.Public()
 		p2 := k.Scalar().Public()
-		p3 := babyjub.NewPrivKeyScalar(babyjub.SkToBigInt(&k)).Public()
+		p3 := babyjub.NewPrivKeyScalar(babyjub.SkToBigInt(k)).Public()
 		if showPt(p1.Point()) != showPt(p2.Point()) || showPt(p1.Point()) != showPt(p3.Point()) {
 			return showPt(p1.Point()) + "!routes-differ"
 		}
 		return showPt(p1.Point())
 	case "ed.sign":
 		need(args, 3)
-		k := keyOf(a.Bytes(args[1]))
+		k := a.Key(args[1])
 		msg := a.Int(args[2])
 		var sig, sig2 *babyjub.Signature
 		var err error
@@ -626,9 +682,17 @@ func dispatch(op, pat string, args []string, a *argTrack) string {
 		return fmt.Sprintf("%s %s %s", showPt(sig.R8), sig.S, showBytes(c[:]))
 	case "ed.verify":
 		need(args, 7)
-		pk := &babyjub.PublicKey{X: a.Int(args[1]), Y: a.Int(args[2])}
+		pk := (*babyjub.PublicKey)(a.Point(args[1], args[2]))
 		msg := a.Int(args[3])
-		sig := &babyjub.Signature{R8: &babyjub.Point{X: a.Int(args[4]), Y: a.Int(args[5])}, S: a.Int(args[6])}
+		r8 := a.Point(args[4], args[5])
+		sig := &babyjub.Signature{R8: r8, S: a.Int(args[6])}
+		sS := sig.S
+		a.checks = append(a.checks, func() string {
+			if sig.R8 != r8 || sig.S != sS {
+				return " !ARGMUT(signature field replaced)"
+			}
+			return ""
+		})
 		var err error
 		if args[0] == "poseidon" {
 			err = pk.VerifyPoseidon(msg, sig)
